@@ -714,13 +714,13 @@ class Interp:
             return d.mul(d.lift(a), d.lift(b))
         if op is ast.LShift:
             if is_sym(b):
-                raise Unsupported('shift by symbolic amount')
+                b = self.concretize(b, 'shift by symbolic amount')
             if b < 0:
                 py_raise('ValueError', 'negative shift count')
             return d.shl(d.lift(a), b)
         if op is ast.RShift:
             if is_sym(b):
-                raise Unsupported('shift by symbolic amount')
+                b = self.concretize(b, 'shift by symbolic amount')
             if b < 0:
                 py_raise('ValueError', 'negative shift count')
             return d.shr(d.lift(a), b)
@@ -1195,6 +1195,9 @@ class Interp:
                 return Builtin('int.bit_length', lambda it, a, k: self._bit_length(s))
             if name in ('real', 'numerator'):
                 return s
+            if name == 'to_bytes' and self.hooks.get('int_to_bytes'):
+                h = self.hooks['int_to_bytes']
+                return Builtin('int.to_bytes', lambda it, a, k: h(it, s, a, k))
             if hasattr(int, name):
                 raise Unsupported('int.%s of a symbolic integer' % name)
             py_raise('AttributeError', "'int' object has no attribute '%s'" % name)
@@ -1247,6 +1250,40 @@ class Interp:
                 return d[k]
         raise Infeasible()
 
+    def concretize(self, v, what, limit=8):
+        """a symbolic integer that can take only a few values under the path condition (a width or bit count looked up in a
+        table under a symbolic key) is decided by case split: one path per value.  More than `limit` values: not modelled"""
+        if not is_sym(v):
+            return v
+        if v.sort not in ('int', 'bool') or not isinstance(self.dom, IntDom):
+            raise Unsupported(what)
+        run = self.run
+        vals = []
+        run.solver.push()
+        try:
+            while True:
+                run.checks += 1
+                r = run.solver.check()
+                if r == z3.unsat:
+                    break
+                if r != z3.sat or len(vals) >= limit:
+                    raise Unsupported(what)
+                c = run.solver.model().eval(v.t, model_completion=True)
+                if not z3.is_int_value(c):
+                    raise Unsupported(what)
+                vals.append(c.as_long())
+                run.solver.add(v.t != c)
+        finally:
+            run.solver.pop()
+        vals.sort()
+        for c in vals[:-1]:
+            if run.branch(v.t == c):
+                return c
+        if not vals:
+            raise Infeasible()
+        run.assume(v.t == vals[-1])
+        return vals[-1]
+
     def subscript(self, obj, idx):
         if isinstance(obj, SymDictBase):
             return obj.getitem(self, idx)
@@ -1290,6 +1327,19 @@ class Interp:
             if h:
                 return h(self, obj, idx)
             return Opaque('str')
+        if isinstance(obj, ByteSeq) and not is_sym(idx) and not (isinstance(idx, slice) and any(is_sym(x) for x in (idx.start, idx.stop, idx.step))):
+            # bytes of known length with symbolic elements: concrete indices and slices are exact
+            if isinstance(idx, slice):
+                try:
+                    return ByteSeq(obj.items[idx])
+                except (TypeError, ValueError) as e:
+                    self.reraise(e)
+            if not isinstance(idx, int):
+                self.type_error('indices must be integers')
+            try:
+                return obj.items[idx]
+            except IndexError:
+                py_raise('IndexError', 'index out of range')
         if isinstance(obj, (Opaque, ByteBuf, SymBytes)):
             if isinstance(idx, slice):
                 return SliceOf(obj, idx.start, idx.stop)
